@@ -240,12 +240,33 @@ theorem fsm_step_refines (ctx : Ctx) (cur : Env) (hok : EnvOk ctx cur) (hC : Env
   rw [hspec]
   exact ⟨rfl, h1, h2⟩
 
-/-- … in the words of the task: after the edge the register of an FSM holds the code of `s'` exactly when the Spec's
-next configuration puts the FSM in `s'` (for every state `s'` of its encoding). -/
-theorem fsm_register_moves (order : List String) (hn : order.Nodup) (σ' : Conf) (reg : Nat) (v : Int)
-    (hag : σ' reg = decode order v) (s' : String) (hs : s' ∈ order) :
-    v = (code order s' : Int) ↔ σ' reg = some s' := by
-  rw [hag]; exact (decode_eq_some_iff hn hs).symm
+/-- … in other words: after the edge the register of an FSM holds the code of `s'` exactly when the Spec's next
+configuration puts the FSM in `s'` (same hypotheses; for every FSM of the program and every state `s'` of its encoding);
+and before the edge it holds the code of `s` exactly when the configuration says `s`. -/
+theorem fsm_register_moves (ctx : Ctx) (cur : Env) (hok : EnvOk ctx cur) (hC : EnvN ctx cur) (inits : Env) (rl : List Bool)
+    (d : String) (hd : d ≠ "comb") (items : List FProg) (hwf : FProg.listOk ctx none items = true)
+    (hdist : ((FProg.listFsms items).map (·.1.reg)).Nodup)
+    (σ : Conf) (hσ : Agrees cur σ (FProg.listFsms items))
+    (ht : ∀ w ∈ Ev.writes (FProg.listEvents ctx cur σ d none items),
+      w.1.twf ctx = true ∧ w.1.noAlias ctx cur ∧ ∀ f ∈ FProg.listFsms items, ∀ b, some (f.1.reg, b) ∉ lbits ctx cur w.1)
+    (htg : ∀ e ∈ stmtTargets (lowerList ctx (FProg.lowerListD d none items)), e.twf ctx = true ∧ e.noAlias ctx cur)
+    (f : FsmHdr × FsmEntries) (hf : f ∈ FProg.listFsms items) (s s' : String)
+    (hs : s ∈ encOrder f.2) (hs' : s' ∈ encOrder f.2) :
+    (cur.val f.1.reg = (code (encOrder f.2) s : Int) ↔ σ f.1.reg = some s) ∧
+    ((syncProcess ctx inits rl none (lowerList ctx (FProg.lowerListD d none items)) cur).val f.1.reg =
+        (code (encOrder f.2) s' : Int) ↔ (fsmSpecStep ctx items d cur cur σ).2 f.1.reg = some s') := by
+  have h2 := (fsm_step_refines ctx cur hok hC inits rl d hd items hwf hdist σ hσ ht htg).2.1 f hf
+  constructor
+  · rw [hσ f hf]; exact (decode_eq_some_iff (encOrder_nodup f.2) hs).symm
+  · rw [h2]; exact (decode_eq_some_iff (encOrder_nodup f.2) hs').symm
+
+/-- The first part of `fsm_step_refines` holds in every domain, `comb` included: the active assignments of the lowered
+program are the Spec's events (a State body's `comb` assignments are active exactly while the FSM is in that state). -/
+theorem fsm_active_writes (ctx : Ctx) (cur : Env) (d : String) (items : List FProg)
+    (hwf : FProg.listOk ctx none items = true) (σ : Conf) (hσ : Agrees cur σ (FProg.listFsms items)) :
+    Prog.listWrites ctx cur (FProg.lowerListD d none items) =
+      (FProg.listEvents ctx cur σ d none items).map Ev.toWrite :=
+  lowerListD_writes ctx cur σ d items none hσ (listOk_regs ctx items none hwf)
 
 /-- **(c) `ongoing(S)` equals `state == code S`, combinationally.** The top-level combinational statements an FSM
 contributes assign, to the signal of every encoded state `S`, the Spec's `ongoing(S)` (1 iff the FSM is in `S`), in
@@ -397,27 +418,40 @@ example : ((FProg.listFsms fsmProg).map (·.1.reg)).Nodup := by decide
 
 theorem fsmFsms : FProg.listFsms fsmProg = [(fsmHdr, fsmEntries)] := rfl
 
+theorem fsmEx_ht : ∀ w ∈ Ev.writes (FProg.listEvents fsmCtx fsmEnvB (fsmConf (some "B")) "sync" none fsmProg),
+    w.1.twf fsmCtx = true ∧ w.1.noAlias fsmCtx fsmEnvB ∧
+      ∀ f ∈ FProg.listFsms fsmProg, ∀ b, some (f.1.reg, b) ∉ lbits fsmCtx fsmEnvB w.1 := by
+  rw [fsmWritesB, fsmFsms]
+  intro w hw
+  simp only [List.mem_singleton] at hw
+  subst hw
+  refine ⟨by decide, trivial, ?_⟩
+  intro f hf b
+  simp only [List.mem_singleton] at hf
+  subst hf
+  simp [lbits, fsmHdr]
+
+theorem fsmEx_htg : ∀ e ∈ stmtTargets (lowerList fsmCtx (FProg.lowerListD "sync" none fsmProg)),
+    e.twf fsmCtx = true ∧ e.noAlias fsmCtx fsmEnvB := by
+  rw [fsmTargets]
+  intro e he
+  simp only [List.mem_cons, List.not_mem_nil, or_false] at he
+  rcases he with he | he | he | he <;> subst he <;> exact ⟨by decide, trivial⟩
+
 /-- `fsm_step_refines` applies to the FSM in state `B` (all hypotheses hold) … -/
 theorem fsm_step_example :
     Agrees (syncProcess fsmCtx fsmInits [] none (lowerList fsmCtx (FProg.lowerListD "sync" none fsmProg)) fsmEnvB)
       (fsmSpecStep fsmCtx fsmProg "sync" fsmEnvB fsmEnvB (fsmConf (some "B"))).2 (FProg.listFsms fsmProg) :=
   (fsm_step_refines fsmCtx fsmEnvB fsmEnvB_ok (envN_of_ok _ _ rfl fsmEnvB_ok) fsmInits [] "sync" (by decide) fsmProg
-    (by decide) (by decide) (fsmConf (some "B")) (by unfold Agrees; decide)
-    (by
-      rw [fsmWritesB, fsmFsms]
-      intro w hw
-      simp only [List.mem_singleton] at hw
-      subst hw
-      refine ⟨by decide, trivial, ?_⟩
-      intro f hf b
-      simp only [List.mem_singleton] at hf
-      subst hf
-      simp [lbits, fsmHdr])
-    (by
-      rw [fsmTargets]
-      intro e he
-      simp only [List.mem_cons, List.not_mem_nil, or_false] at he
-      rcases he with he | he | he | he <;> subst he <;> exact ⟨by decide, trivial⟩)).2.1
+    (by decide) (by decide) (fsmConf (some "B")) (by unfold Agrees; decide) fsmEx_ht fsmEx_htg).2.1
+
+/-- `fsm_register_moves` there: the register holds A's code after the edge iff the Spec goes to `A` (both true) -/
+example : (syncProcess fsmCtx fsmInits [] none (lowerList fsmCtx (FProg.lowerListD "sync" none fsmProg)) fsmEnvB).val 2 =
+      (code (encOrder fsmEntries) "A" : Int) ↔
+    (fsmSpecStep fsmCtx fsmProg "sync" fsmEnvB fsmEnvB (fsmConf (some "B"))).2 2 = some "A" :=
+  (fsm_register_moves fsmCtx fsmEnvB fsmEnvB_ok (envN_of_ok _ _ rfl fsmEnvB_ok) fsmInits [] "sync" (by decide) fsmProg
+    (by decide) (by decide) (fsmConf (some "B")) (by unfold Agrees; decide) fsmEx_ht fsmEx_htg (fsmHdr, fsmEntries)
+    (by rw [fsmFsms]; exact List.mem_singleton.2 rfl) "B" "A" (by decide) (by decide)).2
 
 /-- … and what it says there: `cnt` becomes 6, the register goes from B's code 2 to A's code 0, the Spec goes from `B` to `A` -/
 example : syncProcess fsmCtx fsmInits [] none (lowerList fsmCtx (FProg.lowerListD "sync" none fsmProg)) fsmEnvB
@@ -429,8 +463,8 @@ example : syncProcess fsmCtx fsmInits [] none (lowerList fsmCtx (FProg.lowerList
     = [1, 5, 1, 1, 0, 0] := by decide
 example : (fsmSpecStep fsmCtx fsmProg "sync" [1, 5, 0, 1, 0, 0] [1, 5, 0, 1, 0, 0] (fsmConf (some "A"))).2 2 = some "C" := by decide
 example : (fsmSpecStep fsmCtx fsmProg "sync" [0, 5, 0, 1, 0, 0] [0, 5, 0, 1, 0, 0] (fsmConf (some "A"))).2 2 = some "A" := by decide
-example : (2 : Int) = (code (encOrder fsmEntries) "B" : Int) ↔ fsmConf (some "B") 2 = some "B" :=
-  fsm_register_moves (encOrder fsmEntries) (encOrder_nodup _) (fsmConf (some "B")) 2 2 (by decide) "B" (by decide)
+example : Prog.listWrites fsmCtx fsmEnvB (FProg.lowerListD "comb" none fsmProg) = [] :=
+  (fsm_active_writes fsmCtx fsmEnvB "comb" fsmProg (by decide) (fsmConf (some "B")) (by unfold Agrees; decide)).trans rfl
 
 /-- `fsm_ongoing`: the hypotheses hold for the example (distinct one-bit signals 3, 4, 5) -/
 example : (applyWrites fsmCtx fsmEnvB
